@@ -224,6 +224,13 @@ type Knobs struct {
 	CheckEvery    int    `json:"check_every,omitempty"` // full contents check every k statements (0/1 = every statement)
 	SparseObserve bool   `json:"sparse_observe,omitempty"` // successful INSERTs are followed by an observer query only every CheckEvery statements (very large tables)
 	TreeEvery     int    `json:"tree_every,omitempty"`  // tree walk every k statements (0 = never)
+	// Quiet: no observer query after a successful statement - every SELECT the
+	// oracle issues takes the store lock and runs the statement prologue, and a
+	// state that any next statement repairs (a flag cleared in lockShared, a
+	// page re-marked dirty by a fetch) is gone before anything that depends on
+	// it happens. Tables are compared at USE, restart, refusals, every
+	// CheckEvery-th statement and at the end only.
+	Quiet bool `json:"quiet,omitempty"`
 	NoAutoRecheck bool   `json:"-"`
 }
 
